@@ -762,7 +762,17 @@ class Engine:
         if isinstance(o, SDict):
             s = st.fork()
             key = self.idx(ix)
-            s.heap[recv.id] = SDict(z3.Store(o.dom, key, z3.BoolVal(True)), z3.Store(o.val, key, T.lift(v)))
+            vv = T.lift(v)
+            vb = getattr(o, 'val_width', None)
+            if vb is not None:
+                # values are stored as val_width-bit words: the stored value must fit (safety obligation)
+                self.oblige(st, f'{self._fn_stack[-1] if self._fn_stack else ""}.stored_word_fits_{vb}_bits', z3.And(T.le(0, vv), T.lt(vv, 1 << vb)))
+                vv = z3.Extract(vb - 1, 0, vv)
+            n = SDict(z3.Store(o.dom, key, z3.BoolVal(True)), z3.Store(o.val, key, vv))
+            for a in ('val_width',):
+                if hasattr(o, a):
+                    setattr(n, a, getattr(o, a))
+            s.heap[recv.id] = n
             return [(s, None)]
         if isinstance(o, SList):
             if o.ncols:
@@ -953,11 +963,11 @@ class Engine:
             if isinstance(node.slice, ast.Slice):
                 sl = node.slice
                 parts = [p if p is not None else ast.Constant(value=None) for p in (sl.lower, sl.upper, sl.step)]
-                for k2, s2, (lo, hi, step) in self.evs(parts, s):
+                for k2, s2, lhs in self.evs(parts, s):
                     if k2 != OK:
-                        yield (k2, s2, (lo, hi, step))
+                        yield (k2, s2, lhs)
                         continue
-                    yield (OK, s2, self.slice(recv, lo, hi, step, s2))
+                    yield (OK, s2, self.slice(recv, lhs[0], lhs[1], lhs[2], s2))
                 continue
             for k2, s2, ix in self.ev(node.slice, s):
                 if k2 != OK:
@@ -997,10 +1007,7 @@ class Engine:
             key = self.idx(ix)
             for s, ok in self.branch(st, z3.Select(o.dom, key), 'dict-has-key'):
                 if ok:
-                    t = z3.Select(o.val, key)
-                    if isinstance(T, IntBV):
-                        T.note(t, getattr(o, 'val_bits', T.n - 8), getattr(o, 'val_nonneg', False))
-                    yield (OK, s, t)
+                    yield (OK, s, self.dict_val(o, key))
                 else:
                     yield (RAISE, s, ExcVal(KeyError))
             return
@@ -1024,6 +1031,17 @@ class Engine:
                 yield (RAISE, s, ExcVal(KeyError))
             return
         raise Undecided(f'subscript of {o!r}')
+
+    def dict_val(self, o: SDict, key: Any) -> Any:
+        T = self.T
+        t = z3.Select(o.val, key)
+        vb = getattr(o, 'val_width', None)
+        if vb is not None:
+            t = z3.ZeroExt(T.n - vb, t)
+            T.note(t, vb, True)
+        elif isinstance(T, IntBV):
+            T.note(t, getattr(o, 'val_bits', T.n - 8), getattr(o, 'val_nonneg', False))
+        return t
 
     def slice(self, recv: Any, lo: Any, hi: Any, step: Any, st: State) -> Any:
         T = self.T
@@ -1083,11 +1101,11 @@ class Engine:
                 raise Undecided('unary operator')
 
     def ex_BinOp(self, node, st):
-        for k, s, (a, b) in self.evs([node.left, node.right], st):
+        for k, s, ab in self.evs([node.left, node.right], st):
             if k != OK:
-                yield (k, s, (a, b))
+                yield (k, s, ab)
                 continue
-            yield from self.binop(node.op, a, b, s)
+            yield from self.binop(node.op, ab[0], ab[1], s)
 
     def binop(self, op: ast.operator, a: Any, b: Any, st: State):
         T = self.T
@@ -1400,6 +1418,12 @@ class Engine:
             if h is not None:
                 yield from h(self, st, f.__self__, args, kwargs)
                 return
+            if isinstance(f.__self__, (int, str, bytes, tuple, frozenset)) and all(_is_concrete(a) for a in args) and not kwargs:
+                try:
+                    yield (OK, st, f(*args))
+                except Exception as e:
+                    yield (RAISE, st, ExcVal(type(e)))
+                return
         # 2. contracts and externals (keyed by the real object)
         key = f
         try:
@@ -1535,7 +1559,7 @@ class Engine:
                 default = args[1] if len(args) > 1 else None
                 for s, ok in self.branch(st, z3.Select(o.dom, key), 'dict.get-hit'):
                     if ok:
-                        yield (OK, s, z3.Select(o.val, key))
+                        yield (OK, s, self.dict_val(o, key))
                     else:
                         yield (OK, s, default)
                 return
